@@ -11,3 +11,7 @@ import CantoVerif.Proofs.CoinswapArith
 import CantoVerif.Proofs.CoinswapEffects
 import CantoVerif.Proofs.CoinswapWF
 import CantoVerif.Props.C01
+import CantoVerif.Model.Erc20
+import CantoVerif.Model.Erc20Token
+import CantoVerif.Spec.Erc20
+import CantoVerif.Driver.Erc20
